@@ -553,6 +553,7 @@ func init() {
 			}
 			out := ""
 			usesW := false
+			flagVars := false
 			ops := []string{}
 			nops := 3 + r.Intn(8)
 			for k := 0; k < nops; k++ {
@@ -611,11 +612,20 @@ func init() {
 					store[p] = []string{contents[ci]}
 					ops = append(ops, "w."+hx(p)+"."+hx(contents[ci])+".0")
 				case op < 4:
-					lines = append(lines, fmt.Sprintf("write(%s, %s, true)", pexpr[pi], cexpr[ci]))
+					// the append flag as a literal, a variable, a comparison or a negation
+					flag := []string{"true", "true", "bt", "fn > 0", "!bf"}[r.Intn(5)]
+					if flag != "true" {
+						flagVars = true
+					}
+					lines = append(lines, fmt.Sprintf("write(%s, %s, %s)", pexpr[pi], cexpr[ci], flag))
 					store[p] = append(store[p], contents[ci])
 					ops = append(ops, "w."+hx(p)+"."+hx(contents[ci])+".1")
 				case op == 4:
-					lines = append(lines, fmt.Sprintf("write(%s, %s, false)", pexpr[pi], cexpr[ci]))
+					flag := []string{"false", "bf", "fn < 0", "!bt"}[r.Intn(4)]
+					if flag != "false" {
+						flagVars = true
+					}
+					lines = append(lines, fmt.Sprintf("write(%s, %s, %s)", pexpr[pi], cexpr[ci], flag))
 					store[p] = []string{contents[ci]}
 					ops = append(ops, "w."+hx(p)+"."+hx(contents[ci])+".0")
 				case op < 7:
@@ -656,6 +666,10 @@ func init() {
 			}
 			for p, ls := range store {
 				files[p] = strings.Join(ls, "\n") + "\n"
+			}
+			if flagVars {
+				lines = append([]string{"bt := true", "bf := false", "fn := 1"}, lines...)
+				dist["(with a computed append flag)"]++
 			}
 			var src string
 			if inFunc {
@@ -755,15 +769,27 @@ func init() {
 				call = "@probe(" + strings.Join(ex, ", ") + ")"
 				lastStatus = status
 			}
+			// an earlier command of a chain may fail as well: the status of the chain is the last command's alone
+			early := ""
+			if plen > 1 && r.Intn(2) == 0 {
+				es := []int{1, 3, 9, 77, 255}[r.Intn(5)]
+				ex := append([]string{tsLit(fmt.Sprintf("--exit=%d", es))}, exprs...)
+				call = "@probe(" + strings.Join(ex, ", ") + ")"
+				early = "/early-failure"
+			}
 			for k := 1; k < plen; k++ {
 				if k == plen-1 && status != 0 {
 					call += fmt.Sprintf(` | @filt("--exit=%d")`, status)
 					lastStatus = status
+				} else if k < plen-1 && r.Intn(2) == 0 {
+					call += fmt.Sprintf(` | @filt("--exit=%d")`, []int{1, 4, 66}[r.Intn(3)])
+					early = "/early-failure"
 				} else {
 					call += " | @filt()"
 				}
 				pout = "f(" + pout + ")"
 			}
+			tag += early
 			out := ""
 			if capture {
 				lines = append(lines, "so, se, sc := "+call, `print("<" + so + ">", sc)`)
